@@ -214,6 +214,7 @@ type loginDev struct {
 	promptEnds []int // per prompt round: offset at which its recognisable text ends
 	shellEnd   int
 	errEnd     int
+	errLineEnd int // offset just past the CRLF of the ssh failure line
 	asked      map[string]int
 	thirdAsk   int // offset at which a credential prompt seen for the third time ends
 }
@@ -279,6 +280,7 @@ func (d *loginDev) play() []byte {
 			}
 
 			d.errEnd = d.emitted + at
+			d.errLineEnd = d.emitted + len(r.Text) + 2
 			out = append(out, d.emit(r.Text+"\r\n")...)
 		default:
 			recog := len(strings.TrimRight(r.Text, " "))
@@ -476,6 +478,10 @@ func Run(c Case) (res Result) {
 		want = "timeout"
 	}
 
+	// a failure message is recognised at the latest when its line is complete: between the end
+	// of the recognisable words and the end of the line a stall may go either way
+	eitherTimeout := want == "connection" && c.StallAt >= 0 && c.FaultKind == "" && c.StallAt >= dev.errEnd && c.StallAt < dev.errLineEnd
+
 	lost := c.StallAt >= 0 && c.FaultKind != "" && (decisive < 0 || c.StallAt < decisive)
 	if lost {
 		// the connection is lost before the dialogue is decided: some error (its class is C06's
@@ -524,7 +530,7 @@ func Run(c Case) (res Result) {
 
 	defer collect()
 
-	if got != want {
+	if got != want && !(eitherTimeout && got == "timeout") {
 		res.Verdict = ev.Fail("Open outcome %q (%v), the dialogue says %q (device log %q, third ask at %d, error line at %d, shell at %d, stall at %d)",
 			got, openErr, want, dev.Log, dev.thirdAsk, dev.errEnd, dev.shellEnd, c.StallAt)
 
